@@ -298,11 +298,29 @@ class FnFacts:
                             return False, "handler re-raises %s unchanged" % eff
                         full = self.scope.repo.exc_fullname(self.fn.module, rn)
                         if full not in allowed:
-                            return False, "handler converts %s to %s" % (eff, rn)
+                            built = self._built_by_helper(rn)
+                            if built is None:
+                                return None, "handler raises an object " \
+                                    "built by %s" % rn
+                            if not all(b in allowed for b in built):
+                                return False, "handler converts %s to %s" \
+                                    % (eff, rn)
                 if caught_all:
                     return True, "try/except -> %s" % ",".join(
                         sorted(a.rsplit(".", 1)[-1] for a in allowed))
         return False, "not inside a try that converts %s" % ",".join(effects)
+
+    def _built_by_helper(self, name):
+        """Exception classes a module-level helper `name(...)` returns, or
+        None if it is not such a helper."""
+        h = self.fn.module.functions.get(name)
+        if h is None:
+            return None
+        rets = [r.value for r in stmts_of(h.node)
+                if isinstance(r, ast.Return) and r.value is not None]
+        built = [self.scope.repo.exc_fullname(h.module, dotted(
+            r.func if isinstance(r, ast.Call) else r)) for r in rets]
+        return built or None
 
     def _handler_for(self, trynode, eff):
         anc = [canon_exc(a) for a in self.scope.repo.exc_ancestors(eff)]
@@ -353,14 +371,57 @@ class FnFacts:
                 return g
         return None
 
+    def helper_len_guard(self, call, depth=0):
+        """`call` invokes a local helper every return of which is a name that
+        carries a dominating length guard inside the helper (a 'read exactly
+        n bytes or raise' helper): the guard, else None."""
+        callee = self.scope.resolve(self.fn, call)
+        if callee is None or depth > 3:
+            return None
+        cf = facts(self.scope, callee)
+        rets = [r for r in stmts_of(callee.node) if isinstance(r, ast.Return)]
+        if not rets:
+            return None
+        g = None
+        for r in rets:
+            if not isinstance(r.value, ast.Name):
+                return None
+            g = cf.len_guard(r, r.value.id)
+            if g is None:
+                return None
+        return g
+
+    def guard_for(self, site_node, operand):
+        """Length guard that covers `operand` at the site (name with a local
+        guard, call to a guarding helper, or name bound to such a call)."""
+        if isinstance(operand, ast.Name):
+            g = self.len_guard(site_node, operand.id)
+            if g is not None:
+                return g
+            ds = [d for d in self.defs.get(operand.id, [])
+                  if d.kind != "param"]
+            if ds and all(isinstance(d.value, ast.Call) and d.index is None
+                          for d in ds):
+                gs = [self.helper_len_guard(d.value) for d in ds]
+                if all(x is not None for x in gs):
+                    return gs[0]
+            return None
+        if isinstance(operand, ast.Call):
+            return self.helper_len_guard(operand)
+        return None
+
     def buffer_discharge(self, site_node, operand, depth=0):
         """Discharge of a read of `operand` (bytes-like expression)."""
+        if isinstance(operand, ast.Call) or isinstance(operand, ast.Name):
+            g = self.guard_for(site_node, operand)
+            if g is not None:
+                return True, "D-guard: `%s`" % norm(g.test)
         if isinstance(operand, ast.Name):
             g = self.len_guard(site_node, operand.id)
             if g is not None:
                 return True, "D-guard: `%s`" % norm(g.test)
             # parameter: look at the callers (D-slice / D-guard in caller)
-            if operand.id in self.fn.params and depth < 3:
+            if operand.id in self.fn.params and depth < 6:
                 callers = self.scope.callers.get(self.fn.key, [])
                 if callers:
                     idx = self.fn.params.index(operand.id)
@@ -427,17 +488,48 @@ class FnFacts:
         st = self.stmt_of(at_node)
         sn = self.cfg.node_of(st)
         base = None
-        for g, atoms in self.guards:
+        exit_refinements = []
+        for g, atoms in self.guards + self._exit_guards():
             gn = self.cfg.node_of(g)
-            if gn is None or sn is None or gn.id not in self.dom[sn.id]:
+            if gn is None or sn is None or gn.id not in self.dom[sn.id] \
+                    or gn is sn:
                 continue
             for a in atoms:
+                right = a.right
+                if isinstance(right, ast.Name) and \
+                        right.id in self.fn.module.constants:
+                    right = self.fn.module.constants[right.id]
                 if norm(a.left) == name and a.op == "in" and \
-                        isinstance(a.right, (ast.Tuple, ast.List, ast.Set)):
-                    vals = [const_int(e) for e in a.right.elts]
+                        isinstance(right, (ast.Tuple, ast.List, ast.Set)):
+                    vals = [const_int(e) for e in right.elts]
                     if all(v is not None for v in vals):
                         base = set(vals) if base is None else base & set(vals)
-        if base is None and name in self.fn.params and depth < 3:
+                elif norm(a.left) == name and const_int(a.right) is not None:
+                    exit_refinements.append((a.op, const_int(a.right)))
+        if base is None and depth < 6:
+            # bound from (an element of) the value a scope function returns
+            for d in self.defs.get(name, []):
+                v = d.value
+                if isinstance(v, ast.Call):
+                    callee = self.scope.resolve(self.fn, v)
+                    if callee is None:
+                        continue
+                    cf = facts(self.scope, callee)
+                    sets = []
+                    for r in stmts_of(callee.node):
+                        if not isinstance(r, ast.Return) or r.value is None:
+                            continue
+                        e = r.value
+                        if d.index is not None and isinstance(e, ast.Tuple) \
+                                and d.index < len(e.elts):
+                            e = e.elts[d.index]
+                        if isinstance(e, ast.Name):
+                            sets.append(cf.valueset(e.id, r, depth + 1))
+                        else:
+                            sets.append(None)
+                    if sets and all(x is not None for x in sets):
+                        base = set().union(*sets)
+        if base is None and name in self.fn.params and depth < 6:
             callers = self.scope.callers.get(self.fn.key, [])
             idx = self.fn.params.index(name)
             sets = []
@@ -466,6 +558,8 @@ class FnFacts:
                                     return None
         if base is None:
             return None
+        for op, c in exit_refinements:
+            base = {x for x in base if _cmp(x, op, c)}
         # refine with enclosing if-branches
         for parent, branch in self.ancestors(st):
             if isinstance(parent, ast.If) and branch in ("body", "orelse"):
@@ -477,6 +571,17 @@ class FnFacts:
                             continue
                         base = {x for x in base if _cmp(x, a.op, c)}
         return base
+
+    def _exit_guards(self):
+        """`if t: ...return/continue` without else: on the fall-through path
+        the test is false."""
+        out = []
+        for st in stmts_of(self.fn.node):
+            if isinstance(st, ast.If) and not st.orelse and st.body and \
+                    isinstance(st.body[-1], (ast.Return, ast.Continue,
+                                             ast.Break)):
+                out.append((st, holds(st.test, False)))
+        return out
 
     def pred_true_on(self, test, name, values):
         """Evaluate a pure integer predicate over `name` on each value."""
@@ -561,6 +666,10 @@ def decoder_scope(repo, col, which="chunks"):
             ok, how = False, ""
             # D-try first
             ok, how = ff.try_discharge(node, effects, allowed)
+            if ok is None:
+                col.add("%s.%s" % (rule, kind), fn, text, True, how,
+                        node=node, undecided=True)
+                continue
             if not ok and kind in ("unpack", "frombuffer"):
                 ok2, how2 = ff.buffer_discharge(node, operand)
                 if ok2:
@@ -589,6 +698,27 @@ def decoder_scope(repo, col, which="chunks"):
                 e = st.exc.func if isinstance(st.exc, ast.Call) else st.exc
                 full = repo.exc_fullname(fn.module, dotted(e))
                 ok = full in allowed
+                und = False
+                if not ok and isinstance(st.exc, ast.Call):
+                    # a helper that builds the exception object
+                    h = scope.resolve(fn, st.exc)
+                    if h is not None:
+                        rets = [r.value for r in stmts_of(h.node)
+                                if isinstance(r, ast.Return)
+                                and r.value is not None]
+                        built = [repo.exc_fullname(h.module, dotted(
+                            r.func if isinstance(r, ast.Call) else r))
+                            for r in rets]
+                        ok = bool(built) and all(b in allowed for b in built)
+                        und = not built
+                elif not ok and isinstance(st.exc, ast.Name) and \
+                        st.exc.id in local_defs(fn.node):
+                    und = True      # re-raising a stored exception object
+                if und:
+                    col.add(rule + ".raise", fn, "raise %s" % dotted(e), True,
+                            "raised object built elsewhere", node=st,
+                            undecided=True)
+                    continue
                 col.add(rule + ".raise", fn, "raise %s" % dotted(e), ok,
                         "" if ok else "decoder raises %s, not the documented "
                         "format-error class" % dotted(e), node=st,
@@ -734,9 +864,7 @@ def _reshape_discharge(scope, ff, node, operand, depth=0):
                     return False, how
                 # need an *exact* size: the guard must be an equality or a
                 # modulus test on the length
-                g = None
-                if isinstance(e.args[0], ast.Name):
-                    g = ff.len_guard(node, e.args[0].id)
+                g = ff.guard_for(node, e.args[0])
                 if g is None:
                     return False, "length of %s only bounded, not fixed" \
                         % norm(e.args[0])
@@ -890,6 +1018,16 @@ def _returns_shape(repo, fn, cs, ch, depth=0):
                     args = call.args
                     if nm.endswith("np.reshape") and len(args) >= 2:
                         args = args[1:]
+                    if len(args) == 1 and isinstance(args[0], ast.Call):
+                        # shape built by a straight-line helper
+                        from .core import resolve_local_call
+                        from .dataflow import inline_helper_call
+                        h = resolve_local_call(fn, args[0])
+                        if h is not None:
+                            inl = inline_helper_call(args[0], h.node,
+                                                     drop_self=True)
+                            if isinstance(inl, (ast.Tuple, ast.List)):
+                                args = [inl]
                     if len(args) == 1 and isinstance(args[0], (ast.Tuple,
                                                                ast.List)):
                         elts = args[0].elts
